@@ -380,7 +380,12 @@ def gen_seq(rng, svc):
 
     def fresh():
         like = rng.choice(seen) if seen and rng.random() < 0.3 else None
-        u = gen_utxo(rng, svc, None if rng.random() < 0.6 else 'plutus', like)
+        kind = None if rng.random() < 0.6 else 'plutus'
+        if svc != 'blockfrost' and rng.random() < 0.04:
+            # a reference script kind this adapter does not handle (known finding script_unsupported: the whole call raises);
+            # what matters in a RUN is what the adapter answers when the caller simply asks again
+            kind, like = ('plutus_v3' if svc == 'cli' and rng.random() < 0.5 else 'native'), None
+        u = gen_utxo(rng, svc, kind, like)
         u = known(u)
         if u['script'] or u['datum'][0] == 'hash':
             seen.append(u)
@@ -443,6 +448,9 @@ def gen_seq(rng, svc):
             ops.append(['tip'])
         else:
             ops.append(['poll'])
+    if rng.random() < 0.25:
+        a = rng.choice(addrs)
+        ops += [['query', a], ['query', a]]             # ask again at once (the retry after an exception)
     if rng.random() < 0.5:
         a = rng.choice(addrs)
         ops += [['query', a], block(a), ['tick', rng.choice([0, 1, 512, 1023, 1024, 1300, 20 * TICK])], ['query', a],
@@ -976,9 +984,18 @@ def correspond(ctx, per_svc=None, seq_per_svc=None):
     def pack(i):
         return {'input': cases[i], 'served': docs[i], 'impl': results[i], 'region': classify(cases[i], results[i], i not in mism)}
 
+    def seq_region(i):
+        # the run behaves exactly as the faithful model (which raises for the script kinds the adapter does not handle and
+        # nothing else goes wrong): the listed finding; anything else is a stale or unfaithful answer
+        sq, obs = seqs[i], (sresults[i].get('seq') or [])
+        raised = [o for op, o in zip(sq['ops'], obs) if op[0] == 'query' and isinstance(o, dict) and 'err' in o]
+        if i not in smism and raised and any(in_region(r) for r in sq['responses']):
+            return REGION
+        return 'stale-or-unfaithful-answer-in-sequence'
+
     def spack(i):
         return {'input': seqs[i], 'served': sdocs[i], 'impl': sresults[i], 'model_agrees': i not in smism,
-                'region': 'stale-or-unfaithful-answer-in-sequence'}
+                'region': seq_region(i)}
     return dict(
         evaluations=len(cases) + len(seqs), distinct_nontrivial=distinct,
         rule='per service: responses of 1-3 UTxO models (0-8 assets over 1-4 policies, names of 0-32 bytes incl. empty, "lovelace", '
